@@ -13,10 +13,10 @@ import (
 
 type intrinsicFn func(e *Exec, fr *Frame, fn *ssa.Function, args []Value) Value
 
-var intrinsics map[string]intrinsicFn
+var intrinsics = map[string]intrinsicFn{}
 
 func init() {
-	intrinsics = map[string]intrinsicFn{
+	for k, v := range map[string]intrinsicFn{
 		"Bool":     inBool,
 		"Int":      inInt,
 		"I32":      func(e *Exec, fr *Frame, fn *ssa.Function, a []Value) Value { return inTyped(e, a, 32, true) },
@@ -79,6 +79,8 @@ func init() {
 			return v
 		},
 		"Symbolic": func(e *Exec, fr *Frame, fn *ssa.Function, a []Value) Value { return e.tf.Bool(true) },
+	} {
+		intrinsics[k] = v
 	}
 }
 
